@@ -81,6 +81,11 @@ class Check(PropertyCheck):
         ds = ['a\n# Legend:', '+--+\n|ab|\n+--+\n# Legend:\na = {fill:red}\nb = {stroke:blue}\n', 'a\n# Legend:\n']
         ds += [gen_doc(self.rng) for _ in range(n)]
         ds += [gen.zoo(self.rng).replace("\r", "") + "\n" for _ in range(n // 4)]
+        # rows with quoted labels, also the same row several times in a row (tables, lanes): the trailing blanks then make
+        # equal rows unequal
+        import props.c15 as c15
+        ds += [c15.gen_input(self.rng).replace("\r", "") + "\n" for _ in range(n // 4)]
+        ds += ['+---------+\n| "yes"   |\n| "yes"   |\n+---------+\n', '"a" |\n"a" |\n"a" |\n']
         for _, t in gen.bundled()[:3]:
             ds.append(t if t.endswith("\n") else t + "\n")
         return ds
